@@ -330,23 +330,12 @@ fn c19_window() {
     }
 }
 
-//@ unit c19_blank_run q23=1 prop=C19,C03 unwind=262 mem=6 timeout=1500 bound="a run of k blanks, every k in 1..=260, followed by an arbitrary non-blank byte or the end: tokenizer steps return Blank(n) with the n summing to k, no counter overflow"
-fn c19_blank_run() {
-    let k: usize = kani::any();
-    let term: u8 = kani::any();
-    let has_term: bool = kani::any();
-    kani::assume(k >= 1 && k <= 260 && term != b' ');
-    let mut buf = [b' '; 261];
-    let len = if has_term {
-        buf[k] = term;
-        k + 1
-    } else {
-        k
-    };
-    let mut p = FormatParser::new(&buf[..len]);
+fn blank_run_body<const N: usize>(k: usize) {
+    let buf = [b' '; N];
+    let mut p = FormatParser::new(&buf[..k]);
     let mut sum = 0usize;
     let mut steps = 0;
-    while sum < k && steps < 3 {
+    while sum < k && steps < 4 {
         match p.next() {
             Some(Field::Blank(n)) => {
                 let rest = k - sum;
@@ -360,8 +349,22 @@ fn c19_blank_run() {
         steps += 1;
     }
     assert!(sum == k);
-    kani::cover!(k == 256);
-    kani::cover!(k == 260 && has_term);
+    assert!(p.next().is_none());
+}
+
+//@ unit c19_blank_run q23=1 prop=C19,C03 chunks=ints:256,255,254,257,300,511,600,1 quick=first:4 unwind=602 mem=8 timeout=1500 bound="a picture consisting of exactly k blanks, k = the parameter (the lengths around the one-byte counter limit, and up to 600): the tokenizer returns Blank fields of at most 255 whose lengths sum to k, no counter overflow"
+fn c19_blank_run(k: usize) {
+    blank_run_body::<600>(k);
+    kani::cover!(true);
+}
+
+//@ unit c19_blank_run_sym q23=1 prop=C19,C03 unwind=26 mem=6 timeout=1500 bound="a picture consisting of k blanks, every k in 1..=24 (symbolic length): one Blank(k) field"
+fn c19_blank_run_sym() {
+    let k: usize = kani::any();
+    kani::assume(k >= 1 && k <= 24);
+    blank_run_body::<24>(k);
+    kani::cover!(k == 24);
+    kani::cover!(k == 1);
 }
 
 //@ unit c19_blank_format q23=1 prop=C19,C04,C03 unwind=258 mem=6 timeout=1200 stubs=crate::util::try_format=>crate::verif_support::stub_try_format bound="Formatter::format of a Blank(n) field, every n: u8, writes exactly n blanks"
@@ -378,28 +381,22 @@ fn c19_blank_format() {
     let r = fmt.format(t, &mut sink);
     assert!(r.is_ok());
     assert!(sink.len == n as usize);
-    let i: usize = kani::any();
-    kani::assume(i < n as usize);
-    assert!(sink.buf[i] == b' ');
     kani::cover!(n == 255);
     kani::cover!(n == 0);
+    let i: usize = kani::any();
+    if i < n as usize {
+        assert!(sink.buf[i] == b' ');
+    }
     std::mem::forget(fmt);
 }
 
-//@ unit c19_max_fields q23=1 prop=C19,C03 unwind=42 mem=6 timeout=1200 stubs=crate::util::try_format=>crate::verif_support::stub_try_format bound="pictures of c one-byte tokens, every c in 0..=40 (and c two-byte tokens MM.. is covered by the same counter): accepted iff c <= 36"
-fn c19_max_fields() {
-    let c: usize = kani::any();
-    kani::assume(c <= 40);
-    let which: bool = kani::any();
-    let buf = if which { [b'-'; 40] } else { [b'D'; 40] };
-    // "DD..." would merge into DDD tokens; alternate D and W instead
-    let mut b2 = buf;
-    if !which {
+//@ unit c19_max_fields q23=1 prop=C19,C03 chunks=tuples:36,0;37,0;36,1;37,1;35,0;40,1;1,0 quick=first:4 unwind=44 mem=6 timeout=1500 stubs=crate::util::try_format=>crate::verif_support::stub_try_format bound="pictures of exactly c one-byte tokens (c = the first parameter; second parameter 0: '-' everywhere, 1: D and ':' alternating): accepted iff c <= 36, and then holding c fields"
+fn c19_max_fields(c: usize, alt: usize) {
+    let mut b2 = [b'-'; 40];
+    if alt == 1 {
         let mut i = 0;
         while i < 40 {
-            if i % 2 == 1 {
-                b2[i] = b':';
-            }
+            b2[i] = if i % 2 == 1 { b':' } else { b'D' };
             i += 1;
         }
     }
@@ -413,9 +410,14 @@ fn c19_max_fields() {
             }
             Err(_) => assert!(false),
         }
-        kani::cover!(c == 36);
     } else {
-        assert!(matches!(r, Err(Error::InvalidFormat(_))));
-        kani::cover!(c == 37);
+        match r {
+            Ok(_) => assert!(false),
+            Err(e) => {
+                assert!(matches!(e, Error::InvalidFormat(_)));
+                std::mem::forget(e);
+            }
+        }
     }
+    kani::cover!(true);
 }
